@@ -29,7 +29,7 @@ ASSUMPTIONS = [
     "near misses for logical-typed leaves are taken from {dict, list, None, bytes} (A16); unrepresentable decimals belong to C16",
     "float leaves restricted to the float32 range as the statement says",
 ]
-N = {"quick": 24000, "thorough": 800000}
+N = {"quick": 64000, "thorough": 1200000}
 TIME_LIMIT = {"quick": 40, "thorough": 560}
 SHARDS = 16
 REACH = {
